@@ -94,12 +94,27 @@ type blockRecord struct {
 // runBlockPlans builds and executes block plans on c, taking snapshots with snap at every observation point.
 func runBlockPlans(c *chain.Chain, blocks []BlockPlan, snap func(ctx sdk.Context) interface{}) []blockRecord {
 	var out []blockRecord
+	var history []builtTx
 	for _, bp := range blocks {
 		pb := newPlanBuilder(c)
 		rec := blockRecord{Plan: bp, BaseFee: new(big.Int).Set(pb.baseFee), Floor: new(big.Int).Set(pb.floor)}
 		var txs [][]byte
 		for _, p := range bp.Txs {
-			bt := pb.build(p)
+			var bt builtTx
+			if p.Kind == "replay" {
+				// exact bytes of an earlier tx of this history (earlier block or earlier in this block)
+				if len(history) == 0 {
+					bt = builtTx{Bytes: []byte{0}, Plan: p}
+				} else {
+					src := history[(p.RBlock*7+p.RIndex)%len(history)]
+					bt = src
+					bt.Plan = p
+					bt.ReplayOf = src.Bytes
+				}
+			} else {
+				bt = pb.build(p)
+			}
+			history = append(history, bt)
 			rec.Txs = append(rec.Txs, txRecord{Built: bt})
 			txs = append(txs, bt.Bytes)
 		}
